@@ -272,7 +272,7 @@ func sumInts(a []int) (s int) {
 	return
 }
 
-var propFault = h.NewProp("TestPropFault", h.Budget{Quick: 3200, Thorough: 48000}, genFault, runFault)
+var propFault = h.NewProp("TestPropFault", h.Budget{Quick: 1600, Thorough: 48000}, genFault, runFault)
 
 func TestPropFault(t *testing.T) { propFault.Check(t); stopChild() }
 
@@ -368,7 +368,10 @@ func judgeDamaged(T, where string, res DecodeRes, rec *h.Rec) error {
 	if err != nil {
 		return err
 	}
-	if st.Alloc > limit {
+	// rlwe.Parameters: a few hundred bytes of literal legitimately expand to megabytes of ring tables (a changed digit of
+	// LogN or of a modulus gives other, valid parameters), so the allocation bound says nothing there; process death
+	// under the child's address-space limit still counts.
+	if st.Alloc > limit && T != "rlwe.Parameters" {
 		rec.Class("outcome=alloc-over-bound")
 		if err := known("C08:corrupt:alloc-unbounded", fmt.Sprintf("decoding %d input bytes allocated %d bytes (> 64*len + 1 MiB = %d)", res.Lens[0], st.Alloc, limit)); err != nil {
 			return err
@@ -377,6 +380,6 @@ func judgeDamaged(T, where string, res DecodeRes, rec *h.Rec) error {
 	return nil
 }
 
-var propCorrupt = h.NewProp("TestPropCorrupt", h.Budget{Quick: 3200, Thorough: 48000}, genCorrupt, runCorrupt)
+var propCorrupt = h.NewProp("TestPropCorrupt", h.Budget{Quick: 1600, Thorough: 48000}, genCorrupt, runCorrupt)
 
 func TestPropCorrupt(t *testing.T) { propCorrupt.Check(t); stopChild() }
